@@ -10,7 +10,7 @@ CHECKS = {
     "C17": dict(
         category="exploration",
         technique="round trip AST -> text (3 random layouts) -> real parser -> normalised tree dump, over Hypothesis-generated structural and typed ASTs; metamorphic layout/outer-comment invariance of run results",
-        text="(1) Structural ASTs over all component kinds and every function name the factory resolves (count reported in evidence), arity 0-4, well-known and arbitrary qualifiers, quoted headers, signed/decimal numbers, regex terms, references, nesting <=4, parsed with LarkParser + LarkTransformer (no arity validation in the way): no _ambig node and the dump equals the source AST for every layout. (2) Runnable typed programs through CsvPath.parse (Matcher.expressions dump) and a run per layout: identical results, also with a mode-free outer comment added.",
+        text="(1) Structural ASTs over all component kinds and every function name the factory resolves (count reported in evidence), arity 0-4, well-known and arbitrary qualifiers, quoted headers, signed/decimal numbers, regex terms, references, nesting <=4, parsed with LarkParser + LarkTransformer (no arity validation in the way): no _ambig node and the dump equals the source AST for every layout. (2) Runnable typed programs through CsvPath.parse (Matcher.expressions dump) and a run per layout: identical results, also with a mode-free outer comment added. Layouts draw from space, tab, LF, CRLF, form feed and inner comments; arbitrary qualifiers and variable names include mixed-case ones.",
         note="Trusted: the renderer and the dump normaliser in vf/props/c17.py. Whitespace is always kept before '->' ('-' is a legal name character); quoted headers carry no qualifiers (no grammar form).",
         design="5 C17",
     ),
@@ -24,7 +24,7 @@ CHECKS = {
     "C19": dict(
         category="exploration",
         technique="twin-run differential: every job of a Hypothesis-generated history vs the same job alone in a fresh Python process with an empty cache",
-        text="Histories of 2-6 (csvpath, file) jobs in one long-lived process, created by CsvPath() or CsvPaths().csvpath(), over files whose header cells may contain quotes, delimiters, leading quotes and spaces, optionally a file path rewritten with new content, cache cold or populated by an earlier process. Each job's (lines, variables, printouts, errors, validity, counters, headers) must equal its fresh-process twin; a repeated job repeats its tuple.",
+        text="Histories of 2-6 (csvpath, file) jobs in one long-lived process, created by CsvPath() or CsvPaths().csvpath(), over files whose header cells may contain quotes, delimiters, leading quotes and spaces, optionally a file path rewritten with new content (also with the same size inside the same second, modification time pinned by the harness), the [errors] policy of config.ini drawn per case with an erroring observer component, cache cold or populated by an earlier process. Each job's (lines, variables, printouts, errors, validity, counters, headers) must equal its fresh-process twin; a repeated job repeats its tuple.",
         note="Twins are subprocesses (python -m vf.props.c19) with their own scratch directory and the same relative file path.",
         design="5 C19",
     ),
@@ -45,7 +45,7 @@ CHECKS = {
     "C10": dict(
         category="exploration",
         technique="exhaustive enumeration of run histories under a harness-owned clock plus Hypothesis-drawn longer histories, history invariants after every run",
-        text="Histories over {2 groups} x {new, reused instance} x non-decreasing scripted instants (same second, +1 s, 12:59:59/13:00:00, 23:59:59/next-day 00:00:00): all canonical histories up to length 3 (quick) / 5 (thorough) with collect_paths, plus drawn histories of length 5-8 over all six methods. After every run: exactly one new directory, under the run's own group, equal to the results' run_dir; sha256 of every file of every earlier run unchanged; '$g.results.<prefix>:last|:first.<id>' resolves to the data of the most recent / earliest run (by scripted start second) whose directory has the prefix.",
+        text="Histories over {2 groups} x {new, reused instance} x non-decreasing scripted instants (same second, +1 s, 12:59:59/13:00:00, 23:59:59/next-day 00:00:00): all canonical histories up to length 3 (quick) / 5 (thorough) with collect_paths, plus drawn histories of length 5-8 over all six methods. After every run: exactly one new directory, under the run's own group, equal to the results' run_dir; sha256 of every file of every earlier run unchanged; '$g.results.<prefix>:last|:first.<id>' resolves to the data of the most recent / earliest run (by scripted start second) whose directory has the prefix, when asked of the instance that just ran and of the three oldest instances of the history, which stay alive.",
         note="Clock patched through module attributes csvpath.csvpaths.datetime and csvpath.managers.metadata.datetime; a directory not dated 2031 => harness error. Ties within a second accept any tied run.",
         design="5 C10",
     ),
@@ -59,7 +59,7 @@ CHECKS = {
     "C11": dict(
         category="exploration",
         technique="exhaustive enumeration of canonical operation sequences (add/mutate/remove/new-instance) plus Hypothesis-drawn longer sequences against an abstract versioned-store model, invariants after every step",
-        text="Operation sequences over add(name in 2, source in 2, content in 3), mutate source, remove(name), new instance - all canonical sequences up to length 4 (quick) / 5 (thorough, 100k+ sequences) and random sequences up to 25 steps. After every step, through the current and a brand-new CsvPaths: get_named_file exists, holds the latest registered bytes and is named by their SHA-256; fingerprint, manifest length and per-entry fingerprints/source names equal the model; every version ever registered is still on disk unmodified; source edits change nothing stored; named_file_names equals the model.",
+        text="Operation sequences over add(name in 2, source in 2, content in 3), mutate source, remove(name), new instance - all canonical sequences up to length 4 (quick) / 5 (thorough, 100k+ sequences) and random sequences up to 25 steps (these also with multi-dot and mixed-case source file names). After every step, through the current and a brand-new CsvPaths: get_named_file exists, holds the latest registered bytes and is named by their SHA-256; fingerprint, manifest length and per-entry fingerprints/source names equal the model; every version ever registered is still on disk unmodified; source edits change nothing stored; named_file_names equals the model.",
         note="Trusted: the 30-line abstract model in vf/props/c11.py, hashlib. Exhaustive bound is length 5 (length 6 = 2.1M sequences was measured as too slow for a check).",
         design="5 C11",
     ),
@@ -80,14 +80,14 @@ CHECKS = {
     "C07": dict(
         category="exploration",
         technique="metamorphic relation between collect(), next(), fast_forward() and collect(nexts=n) on fresh instances over Hypothesis-generated programs",
-        text="For generated programs (general, control-function and fail/error shapes): collect() lines == next() lines; variables, counters, validity, stop state, errors, printouts identical after all three; for every n in 1..matches+1 collect(nexts=n) returns the first n lines and leaves exactly the state next() had at its n-th yield.",
+        text="For generated programs (general, control-function and fail/error shapes): collect() lines == next() lines; variables, counters, validity, stop state, errors, printouts identical after all three; for every n in 1..matches+1 collect(nexts=n) returns the first n lines and leaves exactly the state next() had at its n-th yield; the list objects next() yielded are kept and must still equal their as-yielded copies after the run.",
         note="No reference model: the relation is between runs of the real code. 'stopped' is not compared for early-exit collect(nexts=n).",
         design="5 C07",
     ),
     "C08": dict(
         category="exploration",
         technique="differential testing: standalone CsvPath vs the same member under all six CsvPaths methods, over Hypothesis-generated groups",
-        text="Groups of 1-4 generated csvpaths (distinct ids, drawn order) over a generated table; every member's variables, validity, counters, errors, printouts (and lines for collecting methods) must equal its standalone run under collect_paths, fast_forward_paths, next_paths, collect_by_line, fast_forward_by_line, next_by_line (fresh CsvPaths per method); next_paths yields the concatenation and breadth-first runs yield the per-line union / (if_all_agree) intersection of the standalone decisions.",
+        text="Groups of 1-4 generated csvpaths (distinct ids, drawn order) over a generated table; every member's variables, validity, counters, errors, printouts (and lines for collecting methods) must equal its standalone run under collect_paths, fast_forward_paths, next_paths, collect_by_line, fast_forward_by_line, next_by_line (fresh CsvPaths per method); next_paths yields the concatenation and breadth-first runs yield the per-line union / (if_all_agree) intersection of the standalone decisions. The [errors] policy of config.ini is drawn per case (6 settings without raise) and some members raise an argument error on every line, so handling of errors (collected records, validity, stop, what reaches the printers) is part of the comparison.",
         note="Standalone behaviour is the oracle (checked separately by C01/C03). if_all_agree compared only when every member scans to end of file.",
         design="5 C08",
     ),
@@ -129,15 +129,15 @@ CHECKS = {
     "C06": dict(
         category="exploration",
         technique="Hypothesis round trip: generated records -> csv.writer -> CsvPath -> compared cell for cell; #name vs #index agreement",
-        text="Arbitrary unicode cells (no CR/surrogates; NUL, quotes, delimiters, newlines, non-BMP), 0-12 records of 0-6 cells, blank records anywhere, 4 delimiters x 2 quote chars. collect() of [*][yes()] must equal the non-blank records exactly; headers must be the cleaned first non-blank record; with tidy header names #name and #index stacks must agree element-wise, be the cell, and be None on short rows without failing the run.",
+        text="Arbitrary unicode cells (no CR/surrogates; NUL, quotes, delimiters, newlines, non-BMP), 0-12 records of 0-6 cells, blank records anywhere, 4 delimiters x 2 quote chars, LF or CRLF line terminator, minimal or full quoting, with or without a final newline. collect() of [*][yes()] must equal the non-blank records exactly; headers must be the cleaned first non-blank record; with tidy header names #name and #index stacks must agree element-wise, be the cell, and be None on short rows without failing the run.",
         note="Trusted: Python's csv module as the file writer (files it cannot read back itself are discarded and counted).",
         design="5 C06",
     ),
     "C14": dict(
         category="exploration",
         technique="exhaustive enumeration of qualifier subsets x value histories x rest-of-line patterns against a decision table",
-        text="All 256 subsets of the eight assignment qualifiers x all 3-value sequences of y over {absent,1,2,3} (+true/false without increase/decrease) x all 8 patterns of 'rest of the line matches', each a real 3-line run; x after every line and the set of returned lines are compared with vf/model/assign.py. Thorough is exhaustive (208,896 runs); quick is a seeded sample with every subset >=20 times.",
-        note="Trusted: vf/model/assign.py. Where docs give two readings (latch with a blocking notnone/increase/decrease) both votes are admitted and counted.",
+        text="All 256 subsets of the eight assignment qualifiers x all 3-value sequences of y over {absent,1,2,3} (+true/false without increase/decrease) x all 8 patterns of 'rest of the line matches', each a real 3-line run; x after every line and the set of returned lines are compared with vf/model/assign.py. The table is run again on a tracking variable (@x.<quals> with the tracking name first or last and the qualifier order reversed; 256 x {absent,1,2}^3 x 8), and an empty-cell family covers onmatch/latch/onchange/nocontrib with y drawn from {absent, empty cell, 1, 2}. Thorough is exhaustive over all three families (about 324,000 runs); quick is a seeded sample with every subset >=20 times.",
+        note="Trusted: vf/model/assign.py. Where docs give two readings (latch with a blocking notnone/increase/decrease; a step where exactly one of x, y is an empty cell) both outcomes are admitted and counted.",
         design="5 C14",
     ),
     "C02": dict(
@@ -153,6 +153,13 @@ NOT_YET = {
 }
 
 
+def fuzz_of(pid):
+    import re
+    src = open(os.path.join(ROOT, "vf", "props", pid.lower() + ".py")).read()
+    m = re.search(r'^FUZZ = \{"runs": (\d+), "procs": (\d+)\}', src, re.M)
+    return {"runs": int(m.group(1)), "procs": int(m.group(2))} if m else None
+
+
 def main():
     props = [json.loads(l) for l in open(os.path.join(ROOT, "properties.jsonl"))]
     checks = []
@@ -163,6 +170,9 @@ def main():
         if c is None:
             na.append({"property_id": pid, "reason": NOT_YET.get(pid, "check not built yet in this framework (planned in DESIGN.md section 5); not claimed until it runs")})
             continue
+        fz = fuzz_of(pid)
+        if fz:
+            c = dict(c, technique=c["technique"] + f"; thorough tier adds a coverage-guided campaign (atheris/libFuzzer mutating the bytes Hypothesis' fuzz_one_input decodes into the same strategy, same oracle; {fz['procs']} processes x {fz['runs']} runs)")
         checks.append({
             "property_id": pid,
             "quick_cmd": f"./check {pid} quick",
@@ -186,7 +196,7 @@ def main():
         },
         "engines": [
             {"name": "vf", "path": "/verif/vf", "serves_properties": [c["property_id"] for c in checks],
-             "kind_free_text": "Hypothesis strategies + exhaustive enumerations sharded over 16 worker processes, explicit oracles (reference models, round trips, differential and metamorphic relations), JSON replay files re-executed without Hypothesis"},
+             "kind_free_text": "Hypothesis strategies + exhaustive enumerations sharded over 16 worker processes (thorough tier of C01 C03 C06 C16 C17: plus atheris coverage-guided campaigns over the same strategies), explicit oracles (reference models, round trips, differential and metamorphic relations), JSON replay files re-executed without Hypothesis"},
         ],
         "checks": checks,
         "not_applicable": na,
